@@ -1240,6 +1240,11 @@ void Parser::ParserImpl::loadConnection(const ModelPtr &model, const XmlNodePtr 
             mapVariablesFound = true;
 
             if (!variable1Missing && !variable2Missing) {
+                // Within one connection variable_1 always belongs to component_1 and variable_2 to
+                // component_2, so the pair is compared as written: mapping 'x' to 'y' and 'y' to 'x'
+                // are two different mappings.
+                auto mappedNamePair = std::make_pair(variable1Name, variable2Name);
+
                 if (variable1Name > variable2Name) {
                     std::string tmp = variable1Name;
                     variable1Name = variable2Name;
@@ -1249,10 +1254,10 @@ void Parser::ParserImpl::loadConnection(const ModelPtr &model, const XmlNodePtr 
                 auto variableNamePair = std::make_pair(variable1Name, variable2Name);
 
                 NamePairList::const_iterator it = std::find_if(usedMapVariables.begin(), usedMapVariables.end(),
-                                                               [&variableNamePair](const std::pair<std::string, std::string> &element) { return element.first == variableNamePair.first && element.second == variableNamePair.second; });
+                                                               [&mappedNamePair](const std::pair<std::string, std::string> &element) { return element.first == mappedNamePair.first && element.second == mappedNamePair.second; });
 
                 if (it == usedMapVariables.end()) {
-                    usedMapVariables.emplace_back(variableNamePair);
+                    usedMapVariables.emplace_back(mappedNamePair);
                 } else {
                     auto issue = Issue::IssueImpl::create();
                     issue->mPimpl->setDescription("Connection in model '" + model->name() + "' between '" + variableNamePair.first + "' and '" + variableNamePair.second + "' is not unique.");
